@@ -491,6 +491,46 @@ func c04(c *core.Ctx) {
 		}
 		c.Distinct(uint64(i) | 6<<50)
 	})
+	// (b4) right after a message was verified, the same message with eight covered bytes rewritten so that every cheap
+	// digest of the covered text (CRC-32, and with it length, key and MAC) stays the same: it is another text, the MAC
+	// does not match it
+	c.Section("crc-neutral-rewrite-after-genuine", c.N(200, 50000), func(_ int64, r *gen.Rand) {
+		key := c04Key(r)
+		m := new(stun.Message)
+		_ = m.Build(stun.BindingRequest, stun.NewTransactionIDSetter(r.TID()), stun.RawAttribute{Type: 0x0006, Value: r.Bytes(8 + 4*r.Intn(6))},
+			stun.RawAttribute{Type: 0x8022, Value: r.Bytes(r.Intn(12))}, stun.MessageIntegrity(key))
+		if r.Bool() {
+			_ = stun.Fingerprint.AddTo(m)
+		}
+		genuine := append([]byte(nil), m.Raw...)
+		c04Judge(c, genuine, key, "genuine-before-rewrite", false)
+		forged := append([]byte(nil), genuine...)
+		p := 24 + 4*r.Intn(1) // inside the first attribute's value (at least 8 bytes long)
+		for _, variant := range []int{0, 1} { // CRC computed over the bytes as they are on the wire / with the header length the HMAC uses
+			f := append([]byte(nil), forged...)
+			g := append([]byte(nil), genuine...)
+			if variant == 1 {
+				rm, _ := ref.Parse(g)
+				_, tlv, _ := ref.IntegrityExpected(g, rm, key)
+				l := tlv.Off - 4 - 20 + 24
+				f[2], f[3], g[2], g[3] = byte(l>>8), byte(l), byte(l>>8), byte(l)
+			}
+			f[p], f[p+1], f[p+2], f[p+3] = f[p]^0x5A, f[p+1]^0x01, f[p+2]^0x80, f[p+3]^0x33
+			x := crcSolve(f[:p+4], ref.CRC32(g[:p+8]))
+			copy(f[p+4:p+8], x[:])
+			if ref.CRC32(f[:p+8]) != ref.CRC32(g[:p+8]) {
+				fatalHarness("C04: CRC-neutral rewrite is wrong")
+			}
+			out := append([]byte(nil), genuine...)
+			copy(out[p:p+8], f[p:p+8])
+			// the genuine message is verified once more immediately before (the state a verifier is in when the rewrite arrives)
+			dec := new(stun.Message)
+			_ = stun.Decode(genuine, dec)
+			_ = stun.MessageIntegrity(key).Check(dec)
+			c04Judge(c, out, key, "crc-neutral-rewrite", true)
+		}
+		c.Distinct(gen.HashBytes(genuine))
+	})
 	// (b2) one key buffer rewritten in place between uses (the pooled HMAC must not remember keys by reference)
 	c.Section("key-buffer-reuse", c.N(300, 100000), func(_ int64, r *gen.Rand) {
 		buf := r.Bytes(r.PickInt([]int{8, 16, 16, 20, 64, 80}))
